@@ -5,8 +5,9 @@
 Require Import Cherab.Common.Qx.
 Require Import Cherab.Model.C13_Wrappers Cherab.Model.C13_Float.
 Require Import Cherab.Proofs.C13_Routing Cherab.Proofs.C13_Periodic Cherab.Proofs.C13_Samplers
-               Cherab.Proofs.C13_Polygon Cherab.Proofs.C13_Cylindrical Cherab.Proofs.C13_Triangle Cherab.Proofs.C13_Table.
+               Cherab.Proofs.C13_Polygon Cherab.Proofs.C13_Cylindrical Cherab.Proofs.C13_Triangle Cherab.Proofs.C13_Table Cherab.Proofs.C13_Convex.
 Require Import Cherab.Model.C13_Table.
+Require Cherab.Proofs.C13_Flocq.
 From Coq Require Import Qabs PrimFloat String.
 Open Scope Q_scope.
 
@@ -118,7 +119,8 @@ Theorem C13_periodic_rounded_algorithm_in_period_partial :
 Proof. exact remainder_rounded_range. Qed.
 Print Assumptions C13_periodic_rounded_algorithm_in_period_partial.
 
-(* PARTIAL, strictly narrower gap than the theorem above: the rounding is no longer assumed monotone; it is only
+(* PARTIAL as a statement about an abstract rounding (kept; the full binary64 statement is now
+   C13_periodic_binary64_inner_argument_in_period below), strictly narrower gap than the theorem above: the rounding is no longer assumed monotone; it is only
    assumed to be ROUND-TO-NEAREST BY DEFINITION (rnd q is no farther from q than any representable number, any
    tie-breaking), with 0 and the period representable.  What remains unproved is exactly: (i) PrimFloat.add returns
    a nearest representable number of the exact sum (the IEEE-754 definition of the operation; Coq states it as
@@ -158,6 +160,40 @@ Theorem C13_periodic_binary64_fmod_core_exact :
   /\ (0 <= r)%Z /\ inject_Z r * pow2 e < mag mp ep /\ inject_Z r * pow2 e <= mag mx ex.
 Proof. exact fmod_int_exact. Qed.
 Print Assumptions C13_periodic_binary64_fmod_core_exact.
+
+(* FULL (this is the statement the two _partial theorems above were missing): on binary64, for EVERY finite double x and
+   EVERY finite period p > 0, the inner argument the periodic wrappers hand to the wrapped function - remainder_F x p, which
+   by C13_periodic_source_program_means_models is what the program of periodic.pxd computes - is a finite double r with
+   0 <= r < p.  Derived from the IEEE-754 semantics of the primitive operations through Flocq (PrimFloat.add is the
+   round-to-nearest-even of the exact sum: add_equiv + Bplus_correct; rounding is monotone and fixes representable numbers;
+   next_down p = pred p in [0, p): next_down_equiv + Bpred_correct) and from the exactness of the integer core of the fmod
+   model.  Assumptions: the FloatAxioms of Coq's standard library (specification of the primitive float operations) and the
+   axioms of the standard library's real numbers (Flocq states rounding over R); none of our own. *)
+Theorem C13_periodic_binary64_inner_argument_in_period :
+  forall x p : float,
+  is_finite x = true -> is_finite p = true -> (zero <? p)%float = true ->
+  in_period_F (remainder_F x p) p = true
+  /\ run_remainder zero fmod_F PrimFloat.add toward_zero_F PrimFloat.eqb PrimFloat.ltb source_remainder x p = Some (remainder_F x p).
+Proof.
+  intros x p Fx Fp Pp. split; [exact (C13_Flocq.remainder_F_in_period_prim x p Fx Fp Pp) | apply source_remainder_is_remainder_F].
+Qed.
+Print Assumptions C13_periodic_binary64_inner_argument_in_period.
+
+(* clamping on binary64 (raysect clamp as used by clamp.pyx, Model/C13_Float.v clamp_F), from the IEEE semantics of the
+   primitive comparisons (Flocq): for finite value and bounds with lo <= hi the result is finite, lies in [lo, hi], is the
+   value itself when that is inside, the bound it violates otherwise; a NaN passes through unchanged.  (R here is Flocq's
+   real value of a double, vle / vlt its order; same standard-library axioms as the theorem above.) *)
+Theorem C13_clamp_binary64 :
+  (forall v lo hi : float,
+     C13_Flocq.fin v = true -> C13_Flocq.fin lo = true -> C13_Flocq.fin hi = true -> C13_Flocq.vle lo hi ->
+     C13_Flocq.fin (clamp_F v lo hi) = true
+     /\ (C13_Flocq.vle lo (clamp_F v lo hi) /\ C13_Flocq.vle (clamp_F v lo hi) hi)
+     /\ (C13_Flocq.vle lo v /\ C13_Flocq.vle v hi -> clamp_F v lo hi = v)
+     /\ (C13_Flocq.vlt v lo -> clamp_F v lo hi = lo)
+     /\ (C13_Flocq.vlt hi v -> clamp_F v lo hi = hi))
+  /\ (forall lo hi : float, clamp_F nan lo hi = nan).
+Proof. split; [exact C13_Flocq.clamp_F_range_v | exact C13_Flocq.clamp_F_nan]. Qed.
+Print Assumptions C13_clamp_binary64.
 
 (* binary64, all pairs of doubles, no floating-point axioms: whenever the algorithm takes the "+ period" branch
    the value handed to the wrapped function is not the period itself (given that stepping from the period
@@ -393,12 +429,49 @@ Proof.
 Qed.
 Print Assumptions C13_mask_triangle_is_point_in_triangle.
 
+(* polygon mask contains the interior of every CONVEX polygon with any number of vertices (the fan argument): vertices
+   a, v1, ..., vm listed counter-clockwise and convex seen from a (every triangle a, v_i, v_j with i < j counter-clockwise),
+   the point strictly on the left of every boundary edge (a -> v1, v_i -> v_{i+1}, vm -> a) and off the diagonals from a:
+   the crossing test is 1.  (By C13_mask_independent_of_vertex_order the same holds for the clockwise listing and any
+   starting vertex.) *)
+Theorem C13_mask_convex_polygon_contains_interior :
+  forall a v1 rest p,
+  let l := v1 :: rest in
+  ForallOrdPairs (fun b c => 0 < orient a b c) l ->
+  0 < orient a v1 p -> fan_ok a p l -> 0 < orient (last l a) a p ->
+  Forall (fun v => ~ orient a v p == 0) l ->
+  point_in_polygon p (a :: l) = true /\ point_in_polygon p (rev (a :: l)) = true.
+Proof.
+  intros a v1 rest p l HP H1 Hok Hlast HN.
+  assert (E : point_in_polygon p (a :: l) = true) by (apply pip_convex_inside; assumption).
+  split; [exact E | rewrite pip_rev; exact E].
+Qed.
+Print Assumptions C13_mask_convex_polygon_contains_interior.
+
+(* ... and excludes the exterior: for ANY vertex list whose fan triangles from the first vertex are counter-clockwise, a
+   point strictly separated from all the vertices by a line (orient u v w >= 0 for every vertex w, orient u v p < 0) and in
+   general position has crossing test 0.  For a convex polygon every boundary edge line is such a line for every exterior
+   point, so together with the previous theorem: polygon mask = point-in-polygon for every convex polygon. *)
+Theorem C13_mask_convex_polygon_excludes_exterior :
+  forall u v a l p,
+  orient u v p < 0 -> Forall (fun w => 0 <= orient u v w) (a :: l) ->
+  fan_general a p l -> Forall (fun w => ~ orient a w p == 0) l ->
+  point_in_polygon p (a :: l) = false /\ point_in_polygon p (rev (a :: l)) = false.
+Proof.
+  intros u v a l p Hp HV Hg HN.
+  assert (E : point_in_polygon p (a :: l) = false) by (apply (pip_separated_outside u v); assumption).
+  split; [exact E | rewrite pip_rev; exact E].
+Qed.
+Print Assumptions C13_mask_convex_polygon_excludes_exterior.
+
 (* PARTIAL.  The full statement is: for every simple polygon the crossing test equals membership of the
    polygon's interior.  Proved: for every axis-aligned rectangle and every position of the point (inside,
    outside, level with an edge, on the boundary: closed on the low sides, open on the high sides).
    Narrowed since: C13_mask_triangle_is_point_in_triangle proves it for ALL triangles, and
    C13_mask_is_parity_of_triangle_fan proves that the crossing test of ANY polygon is the parity of the triangles of a
-   fan (and changes by exactly one triangle when an ear is cut off).  What remains unproved is purely geometric: that
+   fan (and changes by exactly one triangle when an ear is cut off), and C13_mask_convex_polygon_contains_interior proves
+   "inside => 1" and C13_mask_convex_polygon_excludes_exterior "outside => 0" for every convex polygon (points in general
+   position).  What remains unproved: for NON-CONVEX simple polygons that
    for a simple polygon a point of the interior lies in an odd number of fan triangles (equivalently that the ears
    cut by the triangulation have disjoint interiors covering the polygon) - the Jordan-curve / triangulation
    theorem, not attempted.  General polygons are covered by the order-independence theorem and the correspondence. *)
